@@ -48,8 +48,8 @@ TASK: produce {n} different, independent, realistic source changes to the librar
  Make the changes different in kind from one another (different code sites / mechanisms). Prefer code sites and input classes that the earlier changes listed below did NOT touch (other feature types, other models, other options of the tools, other entry points, the other coordinate system, other parameter ranges).
 
 HOW TO BUILD AND TEST (no network is available; everything needed is installed):
-   cd {d}/wt && cmake -G Ninja -B _build -DCMAKE_BUILD_TYPE=RelWithDebInfo -DCMAKE_CXX_COMPILER_LAUNCHER=ccache > /dev/null && cmake --build _build -j4
-   ctest --test-dir _build -j4 --timeout 900        # one test (grid_fault_edge_limits) fails even on the unchanged tree; that is expected. All others must pass.
+   cd {d}/wt && cmake -G Ninja -B _build -DCMAKE_BUILD_TYPE=RelWithDebInfo -DCMAKE_CXX_COMPILER_LAUNCHER=ccache > /dev/null && cmake --build _build -j3
+   ctest --test-dir _build -j3 --timeout 900        # one test (grid_fault_edge_limits) fails even on the unchanged tree; that is expected. All others must pass.
  The library is _build/lib/libWorldBuilder.a (link with -Wl,--whole-archive ... -Wl,--no-whole-archive, include dirs include/ and _build/include/, flags -std=c++14 -lz -lpthread); the tools are _build/bin/gwb-dat and _build/bin/gwb-grid. Example world files: tests/gwb-dat/*.wb, tests/gwb-grid/*.wb+.grid, cookbooks/. The public API is in include/world_builder/world.h (World::properties, temperature, composition, grains, ...), wrapper_c.h, wrapper_cpp.h.
 
 FOR EACH change i = 1..{n} deliver, in directory {d}/out/m<i>/ :
@@ -62,7 +62,7 @@ FOR EACH change i = 1..{n} deliver, in directory {d}/out/m<i>/ :
 IMPORTANT - earlier rounds already produced the following changes for this property; do NOT repeat them or close variants of them (different file / mechanism / trigger wanted):
 ''' + '\n'.join(earlier) + '''
 
-Use -j4 for builds and `ctest -j4`; other agents share the machine. A ccache is available (the cmake line above enables it).
+Use -j3 for builds and `ctest -j3`; other agents share the machine. A ccache is available (the cmake line above enables it).
 '''
     open(d + '/prompt.md', 'w').write(txt)
 print('prompts written under', root)
